@@ -39,6 +39,48 @@ theorem sumVars_Q_self (hM : M.Compatible G) (hrank : G.Ranked) (H : List Name) 
   simp only [List.nil_append] at this
   rw [this, Scm.Q_nil hM]
 
+/-- the ratio `Σ_{>v} Q[H] / Σ_{≥v} Q[H]` -/
+noncomputable def qRatio (M : Scm) (H : List Name) (σ : Val) (v : Name) : Rat :=
+  sumVars M.card (afterOf H v) (M.Q H) σ / sumVars M.card (v :: afterOf H v) (M.Q H) σ
+
+/-- (ratio) in the form needed here: the product of the ratios over a part `D` of the topological listing `H` that
+no bidirected edge joins to the rest of `H` is `Q[D]` -/
+theorem qRatio_prod (hM : M.Compatible G) (hG : G.WF) (hrank : G.Ranked)
+    (H : List Name) (hnd : H.Nodup) (hsub : ∀ v ∈ H, v ∈ G.nodes) (htopo : TopoOrdered G H)
+    (D : List Name) (hDnd : D.Nodup) (hDH : ∀ v ∈ D, v ∈ H) (hclosed : BiClosedIn G D H) (σ : Val) :
+    (D.map (qRatio M H σ)).prod = M.Q D σ := by
+  apply Scm.Q_ratio_list hM hG hrank H hnd hsub htopo D hDnd hDH _ σ (qRatio M H σ)
+  · intro l1 v l2 e
+    unfold qRatio
+    rw [e, afterOf_split (not_mem_left_of_nodup (e ▸ hnd))]
+  · intro v hv w hw hwD u hu1 hu2
+    have hvw : v ≠ w := fun e => hwD (e ▸ hv)
+    have := hM.compat v (hsub v (hDH v hv)) w (hsub w hw) hvw ⟨u, hu1, hu2⟩
+    rw [hclosed v hv w hw hwD] at this
+    cases this
+
+/-- the code's ratio (no denominator for the first variable of the order) of an expression that denotes `Q[H]`
+is `qRatio` -/
+theorem qRatio_eq_ratio (hM : M.Compatible G) (hrank : G.Ranked) (σ' : Val)
+    (H : List Name) (hnd : H.Nodup) (hsub : ∀ v ∈ H, v ∈ G.nodes)
+    (q : Expr) (hq : ∀ σ, den (M.env G) σ' q σ = M.Q H σ) (σ : Val) (v : Name) (p s : List Name)
+    (e : H = p ++ v :: s) : qRatio M H σ v = ratio M.card (den (M.env G) σ' q) p v s σ := by
+  have hqf : den (M.env G) σ' q = M.Q H := funext hq
+  subst e
+  unfold qRatio
+  rw [afterOf_split (not_mem_left_of_nodup hnd), hqf]
+  unfold ratio
+  split
+  · rename_i hp
+    subst hp
+    have h1 : sumVars M.card (v :: s) (M.Q ([] ++ v :: s)) σ = 1 := by
+      rw [List.nil_append]
+      apply sumVars_Q_self hM hrank
+      · simpa using hnd
+      · intro x hx; exact hsub x (by simpa using hx)
+    rw [h1, div_one]
+  · rfl
+
 /-- **Lemma 4 (ii) is sound**: from an expression denoting `Q[H]`, a topological listing `H` and a part `D` of `H`
 that no bidirected edge joins to the rest of `H`, the code's product of ratios denotes `Q[D]`. -/
 theorem lemma4_sound (hM : M.Compatible G) (hG : G.WF) (hrank : G.Ranked) (σ' : Val)
@@ -46,35 +88,9 @@ theorem lemma4_sound (hM : M.Compatible G) (hG : G.WF) (hrank : G.Ranked) (σ' :
     (D : List Name) (hDnd : D.Nodup) (hDH : ∀ v ∈ D, v ∈ H) (hclosed : BiClosedIn G D H)
     (q e : Expr) (hq : ∀ σ, den (M.env G) σ' q σ = M.Q H σ)
     (h : lemma4 D q H = .ok e) (σ : Val) : den (M.env G) σ' e σ = M.Q D σ := by
-  have hqf : den (M.env G) σ' q = M.Q H := funext hq
-  let R : Name → Rat := fun v =>
-    sumVars M.card (afterOf H v) (M.Q H) σ / sumVars M.card (v :: afterOf H v) (M.Q H) σ
-  rw [den_lemma4 (M.env G) σ' hnd h σ R]
-  · apply Scm.Q_ratio_list hM hG hrank H hnd hsub htopo D hDnd hDH _ σ R
-    · intro l1 v l2 e
-      show sumVars M.card (afterOf H v) (M.Q H) σ / sumVars M.card (v :: afterOf H v) (M.Q H) σ = _
-      rw [e, afterOf_split (not_mem_left_of_nodup (e ▸ hnd))]
-    · intro v hv w hw hwD u hu1 hu2
-      have hvw : v ≠ w := fun e => hwD (e ▸ hv)
-      have := hM.compat v (hsub v (hDH v hv)) w (hsub w hw) hvw ⟨u, hu1, hu2⟩
-      rw [hclosed v hv w hw hwD] at this
-      cases this
-  · intro v p s e
-    subst e
-    show sumVars M.card (afterOf (p ++ v :: s) v) (M.Q (p ++ v :: s)) σ /
-      sumVars M.card (v :: afterOf (p ++ v :: s) v) (M.Q (p ++ v :: s)) σ = _
-    rw [afterOf_split (not_mem_left_of_nodup hnd), hqf, env_card]
-    unfold ratio
-    split
-    · rename_i hp
-      subst hp
-      have h1 : sumVars M.card (v :: s) (M.Q ([] ++ v :: s)) σ = 1 := by
-        rw [List.nil_append]
-        apply sumVars_Q_self hM hrank
-        · simpa using hnd
-        · intro x hx; exact hsub x (by simpa using hx)
-      rw [h1, div_one]
-    · rfl
+  rw [den_lemma4 (M.env G) σ' hnd h σ (qRatio M H σ)
+    (fun v p s e => qRatio_eq_ratio hM hrank σ' H hnd hsub q hq σ v p s e)]
+  exact qRatio_prod hM hG hrank H hnd hsub htopo D hDnd hDH hclosed σ
 
 /-- **Equation 72 is sound**: `Σ_{h ∖ h^(i)} Q[H] = Q[H^(i)]` for a topological listing `H = p ++ v :: s`. -/
 theorem lowIndex_sound (hM : M.Compatible G) (hrank : G.Ranked) (σ' : Val)
